@@ -190,6 +190,12 @@ type runResult struct {
 	Hung     bool                               `json:"hung"`
 }
 
+// childTraceSink, when set, collects the hook traces of the receiver child processes.
+var (
+	childTraceSink io.Writer
+	childTraceN    int
+)
+
 // oneRun: parent = real sender on a loopback QUIC listener, child = real receiver process.
 func oneRun(self string, src, outDir string, m manifest.Manifest, sendRoot string, streams int, chunk uint32, tail uint32, plan killPlan, timeout time.Duration) runResult {
 	var rr runResult
@@ -210,6 +216,17 @@ func oneRun(self string, src, outDir string, m manifest.Manifest, sendRoot strin
 	defer lt.Close()
 	cmd := exec.Command(self, "recv-child", "-addr", udp.LocalAddr().String(), "-out", outDir, "-streams", fmt.Sprint(streams))
 	cmd.Env = append(os.Environ(), "VERIF_HOOK_TRACE=", "VERIF_HOOK_KILL=", "VERIF_HOOK_FLUSH=")
+	childTracePath := ""
+	if childTraceSink != nil {
+		childTraceN++
+		childTracePath = filepath.Join(os.TempDir(), fmt.Sprintf("vh-child-%d-%d.trace", os.Getpid(), childTraceN))
+		cmd.Env = append(cmd.Env, "VERIF_HOOK_TRACE="+childTracePath)
+		defer func() {
+			// the receiver process's own hook trace (possibly cut short by its kill), for SessionTrace.tla
+			writeNormalisedTrace(childTraceSink, "child", childTraceN, readHookTrace(childTracePath), false)
+			os.Remove(childTracePath)
+		}()
+	}
 	if plan.Point != "" {
 		cmd.Env = append(cmd.Env, fmt.Sprintf("VERIF_HOOK_KILL=%s@%d", plan.Point, plan.K))
 	}
@@ -397,8 +414,15 @@ func ResumeKill(args []string) {
 	chains := fs.Bool("chains", false, "add a second kill before the final resumed run for a third of the plans")
 	budget := fs.Duration("budget", 10*time.Minute, "budget")
 	plansOnly := fs.Bool("plans-only", false, "print the plan space and exit")
+	traceOut := fs.String("trace-out", "", "prefix of the file collecting the children's hook traces (shard number appended)")
 	fs.Parse(args)
 	installHooks()
+	if *traceOut != "" && !*plansOnly {
+		if f, err := os.Create(fmt.Sprintf("%s.%d", *traceOut, *shard)); err == nil {
+			defer f.Close()
+			childTraceSink = f
+		}
+	}
 	self, _ := os.Executable()
 	res := &Result{Extra: map[string]any{}}
 	const chunk = 64
@@ -589,6 +613,7 @@ type tamperCase struct {
 	Arg2   int    `json:"arg2"`
 	Stream int    `json:"streams"`
 	Tail   uint32 `json:"tail"`
+	Lag    bool   `json:"data_streams_lag,omitempty"`
 }
 
 func copyDir(src, dst string) error {
@@ -707,6 +732,16 @@ func ResumeTamper(args []string) {
 		for _, pos := range []int{0, 1, chunk / 2, chunk - 1} {
 			cases = append(cases, tamperCase{Kind: "torn-chunk", Arg: c, Arg2: pos, Stream: 1, Tail: 1}, tamperCase{Kind: "torn-chunk", Arg: c, Arg2: pos, Stream: 2, Tail: 0})
 		}
+	}
+	// the same tears of the highest recorded chunk with data streams that lag behind the control stream:
+	// the repair frame is still in flight when FileEnd / End arrive
+	for _, pos := range []int{0, chunk / 2} {
+		hc := tbits[len(tbits)-1]
+		cases = append(cases, tamperCase{Kind: "torn-chunk", Arg: hc, Arg2: pos, Stream: 1, Tail: 0, Lag: true}, tamperCase{Kind: "torn-chunk", Arg: hc, Arg2: pos, Stream: 2, Tail: 0, Lag: true},
+			tamperCase{Kind: "torn-chunk", Arg: hc, Arg2: pos, Stream: 2, Tail: 1, Lag: true})
+	}
+	for _, pos := range []int{0, chunk / 2} {
+		cases = append(cases, tamperCase{Kind: "complete-torn-last", Arg2: pos, Stream: 1, Tail: 0, Lag: true}, tamperCase{Kind: "complete-torn-last", Arg2: pos, Stream: 2, Tail: 1, Lag: true})
 	}
 	// a completed file (every bit set) whose final chunk is damaged: only the hash check can notice
 	for _, pos := range []int{0, 3, chunk / 2, chunk - 8} {
@@ -835,9 +870,37 @@ func ResumeTamper(args []string) {
 			}
 		}()
 		// 2. a resumed transfer from that state
-		cfg := xfer.Config{Transport: "mock", Conns: 1, Streams: c.Stream, ChunkSize: chunk, Resume: true, NoRootDir: true, VerifyTail: c.Tail,
+		transport := "mock"
+		if c.Lag {
+			transport = "vlag" // the data streams lag behind the control stream (packet loss / retransmission on a data packet)
+		}
+		cfg := xfer.Config{Transport: transport, Conns: 1, Streams: c.Stream, ChunkSize: chunk, Resume: true, NoRootDir: true, VerifyTail: c.Tail,
 			Seed: *seed + int64(i), Watchdog: 8 * time.Second}
+		// which chunk frames did the sender write, which did the receiver apply?
+		var hmu sync.Mutex
+		framed, written := map[[2]uint64]int{}, map[[2]uint64]int{}
+		extraHook = func(name string, a, b uint64, s string) {
+			switch name {
+			case "send.chunk.framed":
+				hmu.Lock()
+				framed[[2]uint64{a, b}]++
+				hmu.Unlock()
+			case "recv.chunk.written":
+				hmu.Lock()
+				written[[2]uint64{a, b}]++
+				hmu.Unlock()
+			}
+		}
 		o, err := xfer.Run(cfg, src, out)
+		extraHook = nil
+		hmu.Lock()
+		unapplied := 0
+		for k, n := range framed {
+			if written[k] < n {
+				unapplied++
+			}
+		}
+		hmu.Unlock()
 		res.Behaviours++
 		res.Steps++
 		kinds[c.Kind]++
@@ -853,7 +916,13 @@ func ResumeTamper(args []string) {
 			res.AddViolation(map[string]any{"kind": "resumed_transfer_hangs", "case": c.Kind}, replay)
 		case o.SendOK && o.RecvOK && !o.TreeEqual && expectRepair:
 			outcomes["silent_wrong_tree"]++
-			res.AddViolation(map[string]any{"kind": "stale_or_damaged_resume_state_trusted", "case": c.Kind}, replay)
+			sig := map[string]any{"kind": "stale_or_damaged_resume_state_trusted", "case": c.Kind}
+			if unapplied > 0 {
+				// the sender did write the repair, the receiver returned success without applying it
+				sig["cause"] = "repair_frame_sent_but_not_applied_before_the_receiver_returned"
+				replay["chunk_frames_written_by_the_sender_but_never_applied"] = unapplied
+			}
+			res.AddViolation(sig, replay)
 		case o.SendOK && o.RecvOK && !o.TreeEqual:
 			outcomes["wrong_tree_outside_statement"]++
 		case o.SendOK && o.RecvOK:
